@@ -22,12 +22,14 @@ import (
 var (
 	spRawTag = spaces.Space{Name: "X-rawtag", Doc: "open and closing tags with attributes: names, =, quotes, unquoted values, white space, line endings",
 		Tokens: []string{"<a", "</a", "<", ">", "/", " ", "\n", "b", "=", "'", "\"", "c", "\t"}, Prefix: "x", Suffix: "x\n"}
+	spRawAttr = spaces.Space{Name: "X-rawattr", Doc: "tags built from whole attributes (bare, unquoted, single- and double-quoted values) with white space and line endings between them",
+		Tokens: []string{"<a", "</a", ">", "/>", " ", "\n", "b", "b=c", "b='c'", "b=\"c\"", "="}, Prefix: "x", Suffix: "x\n"}
 	spRawDecl = spaces.Space{Name: "X-rawdecl", Doc: "comments, processing instructions, declarations, CDATA sections and near misses",
 		Tokens: []string{"<!--", "-->", "-", ">", "<", "a", " ", "\n", "<?", "?>", "?", "<!A", "<!", "<![CDATA[", "]]>", "]"}, Prefix: "x", Suffix: "x\n", Ambiguous: true}
 )
 
 func init() {
-	spaces.All = append(spaces.All, spRawTag, spRawDecl)
+	spaces.All = append(spaces.All, spRawTag, spRawAttr, spRawDecl)
 }
 
 // rawParagraphOK reports whether doc is one paragraph by the block rules alone:
